@@ -34,6 +34,15 @@ def nasty(l):
         "amp": f"a & b < c > d [{l}]",
         "script_upper": f"x </SCRIPT> y </ScRiPt > z <SCRIPT>w [{l}]",
         "comment_script": f"<!--<script> still inside </script --> [{l}]",
+        # characters an escaper has a special case for, first / last / twice in a row
+        "edge_first": f"\u2028 starts with a line separator [{l}]",
+        "edge_last": f"[{l}] ends with a paragraph separator\u2029",
+        "edge_bs_last": f"[{l}] ends with a backslash \\",
+        "edge_quote_first": f"\"[{l}]\"",
+        "edge_twice": f"\\\\ \"\" \u2028\u2028\u2029\u2029 ]]>]]> --!> --> \r\r\n\n\r [{l}]",
+        "edge_lt": f"< <! <!- </ </s </scrip </script [{l}] <",
+        "c1": f"del\u007f pad\u0080 nel\u0085 apc\u009f shy\u00ad bom\ufeff nonchar\ufffe\uffff last-astral\U0010ffff [{l}]",
+        "long": f"[{l}] " + "".join(f"{i:04d}\u00e9\"\\\u2028</script>\U0001F600\n" for i in range(700)),
     }
 
 def bare(l):
